@@ -36,8 +36,6 @@ type chanCase struct {
 	desc    string
 }
 
-func chanPtr[T any](ch chan T) uintptr { return *(*uintptr)(unsafe.Pointer(&ch)) }
-
 func recvCase[T any](ch <-chan T) *chanCase {
 	c := &chanCase{}
 	if ch == nil {
@@ -261,7 +259,7 @@ func Recv2[T any](ch <-chan T) (T, bool) {
 }
 
 // Close is `close(ch)`: a visible operation.
-func Close[T any](ch chan T) {
+func Close[T any](ch chan<- T) {
 	s := S
 	if s == nil {
 		close(ch)
@@ -270,7 +268,7 @@ func Close[T any](ch chan T) {
 	if s.aborting {
 		return
 	}
-	p := chanPtr(ch)
+	p := *(*uintptr)(unsafe.Pointer(&ch))
 	s.point(&Op{kind: opSimple, Desc: fmt.Sprintf("close %#x", p&0xffffff), alts: one})
 	s.closedChan[p] = true
 	close(ch)
